@@ -4,13 +4,13 @@ from .chplan import tables, ch_instances, sample, CH_TRUSTED
 def plan(tier):
     q = tier == 'quick'
     I = []
-    sig = [("length", "int"), ("maxlen", "bool"), ("mode", "int"), ("state", "int"), ("renamed", "bool")]
+    sig = [("length", "int"), ("maxlen", "bool"), ("mode", "int"), ("state", "int"), ("renamed", "bool"), ("sv", "int")]
     for S, L in ([(2, 2)] if q else [(2, 2), (3, 2), (2, 3)]):
         T = tables(S, L)
         if (S, L) != (2, 2):
             T = sample(T, 200)
-        I += ch_instances(f"automaton_accepted[{S}x{L}]", 'c06_accepted', sig, ["0 <= length <= 3", "0 <= mode < 3", f"0 <= state < {S}"],
-                          "B.c06_accepted({t}, length, maxlen, True, mode, state, {S}, {L}, renamed)", [dict(t=t, S=S, L=L) for t in T], per_batch=5, timeout=150, weight=8)
+        I += ch_instances(f"automaton_accepted[{S}x{L}]", 'c06_accepted', sig, ["0 <= length <= 3", "0 <= mode < 3", f"0 <= state < {S}", (f"0 <= sv < {S} and (sv == 0 or (mode == 1 and not renamed))" if (S, L) == (2, 2) else "sv == 0")],
+                          "B.c06_accepted({t}, length, maxlen, True, mode, state, {S}, {L}, renamed, sv)", [dict(t=t, S=S, L=L) for t in T], per_batch=5, timeout=150, weight=8)
     I += ch_instances("freely_reduced_elements", 'c06_free', [("length", "int"), ("maxlen", "bool")], ["0 <= length <= 3"],
                       "B.c06_free(length, maxlen, {L})", [dict(L=1), dict(L=2)], per_batch=1, timeout=200, weight=8)
     return dict(
